@@ -53,6 +53,16 @@ else
   "work/bin/$bin.$$" "$prop" "$arg"; rc=$?
 fi
 rm -f "work/bin/$bin.$$"
+# thorough tier: coverage-guided fuzz stage with the semantic oracle inside the target
+if [ "$mode" = check ] && [ "$arg" = thorough ] && { [ $rc -eq 0 ] || [ $rc -eq 1 ]; }; then
+  case "$prop" in
+    C01|C02|C03|C04|C12) tools/fuzz_stage.sh "$prop" oracle_payload "${VERIF_FUZZ_RUNS:-1500000}"; frc=$? ;;
+    C13) tools/fuzz_stage.sh "$prop" json_bridge "${VERIF_FUZZ_RUNS:-3000000}"; frc=$? ;;
+    C18) tools/fuzz_stage.sh "$prop" did_you_mean "${VERIF_FUZZ_RUNS:-3000000}"; frc=$? ;;
+    *) frc=0 ;;
+  esac
+  [ $frc -eq 1 ] && rc=1
+fi
 # anything but 0/1 (signal, abort, harness panic) is an infrastructure problem
 if [ $rc -ne 0 ] && [ $rc -ne 1 ]; then echo "INFRASTRUCTURE: check process ended with status $rc" >&2; exit 2; fi
 exit $rc
